@@ -2,13 +2,14 @@
 R-TRACK, R-SLOTS, R-SENSE, R-CMP, R-SIGN, R-IFACE, R-ROWIDX, R-BARIDX, R-OBJSLOT, R-HEUR, R-LMIENC."""
 import ast
 from fractions import Fraction
-from ..model import (AnalysisError, src, loc, call_name, dotted, qualname, norm_stmt, params_of, is_const, get_arg, anon_src)
+from ..model import (AnalysisError, src, loc, call_name, dotted, qualname, norm_stmt, params_of, is_const, get_arg, anon_src, clone)
 from ..nf import Evaluator, Rat, Poly, ExprV, ConsV, PointV, Opaque, v_cmp, to_rat
 from .. import flow, effects
 from . import common
 
 TRACKED = "_list_of_constraints_sent_to_solver"
 SOLVER_CONS = "_list_of_solver_constraints"
+TRANSLATE = "_expression_to_solver"
 
 
 def resolve_names(repo):
@@ -23,7 +24,11 @@ def resolve_names(repo):
                 d = dotted(c.args[0])
                 if d and d.startswith("self."):
                     TRACKED = d.split(".", 1)[1]
+    global TRANSLATE
     for be in common.backends(repo):
+        for m0 in be.methods.values():
+            if any(isinstance(c, ast.Call) and call_name(c) == "expression_to_matrices" for c in ast.walk(m0)) and m0.name != "generate_problem":
+                TRANSLATE = m0.name
         gp = be.methods.get("generate_problem")
         if gp is None:
             continue
@@ -155,6 +160,20 @@ def _returned_list_name(fn):
 # ---------------------------------------------------------------------------------------------------
 # R-SLOTS  (cvxpy producer / consumer equation)
 # ---------------------------------------------------------------------------------------------------
+def shape_aliases(fn):
+    """locals bound to the shape of the LMI:  n, m = X.shape  /  n = X.shape[0]  ->  {n: s0, m: s1}"""
+    out = {}
+    for s0 in flow.stmts_of(fn, ast.Assign):
+        t, v = s0.targets[0], s0.value
+        if isinstance(t, ast.Tuple) and len(t.elts) == 2 and isinstance(v, ast.Attribute) and v.attr == "shape" and all(isinstance(e, ast.Name) for e in t.elts):
+            out[t.elts[0].id] = Rat.sym("s0")
+            out[t.elts[1].id] = Rat.sym("s1")
+        if isinstance(t, ast.Name) and isinstance(v, ast.Subscript) and isinstance(v.value, ast.Attribute) and v.value.attr == "shape" and is_const(v.slice) \
+                and v.slice.value in (0, 1):
+            out[t.id] = Rat.sym("s%d" % v.slice.value)
+    return out
+
+
 class _ShapeEval(Evaluator):
     """Counts as polynomials in the shape symbols s0, s1."""
 
@@ -182,7 +201,7 @@ def r_slots(ctx):
     repo = ctx.repo
     resolve_names(repo)
     be = _be(repo, "cvxpy")
-    ev = _ShapeEval({})
+    ev = _ShapeEval(shape_aliases(be.methods["send_lmi_constraint_to_solver"]))
     where_be = be.module.rel
     # producer, scalar: exactly one solver constraint per scalar constraint
     fn = be.methods["send_constraint_to_solver"]
@@ -272,23 +291,56 @@ def r_slots(ctx):
     okc = len(cinit) == 1 and is_const(cinit[0].value, 1)
     ctx.ob("R-SLOTS", "CvxpyWrapper._recover_dual_values::cursor starts at 1", okc,
            "the read cursor starts after the Gram slot" if okc else "the read cursor starts at `%s`" % (src(cinit[0].value) if cinit else "?"), loc(fn, lp))
-    arms, orelse = flow.closed_chain(lp.body[0]) if lp.body and isinstance(lp.body[0], ast.If) else ([], [])
-    kinds = {}
-    for t, body in arms:
-        if isinstance(t, ast.Call) and call_name(t) == "isinstance" and len(t.args) == 2:
-            kinds[dotted(t.args[1])] = body
+    from ..absint import PathEval, bool_decider
+    el = lp.target.id if isinstance(lp.target, ast.Name) else None
     for kind, want_adv in (("Constraint", Rat(1)), ("PSDMatrix", Rat(1) + Rat.sym("s0") * Rat.sym("s1"))):
-        body = kinds.get(kind)
-        if body is None:
-            ctx.ob("R-SLOTS", "CvxpyWrapper._recover_dual_values::advance for %s" % kind, False, "no isinstance branch for %s" % kind, loc(fn, lp))
-            continue
-        adv, read_off, why = _cursor_advance(body, cursor, temp, out, ev)
-        ok = adv is not None and adv.equals(want_adv) and read_off is not None and read_off.equals(Rat(0))
+        def atom(t, kind=kind):
+            if isinstance(t, ast.Call) and call_name(t) == "isinstance" and len(t.args) == 2 and dotted(t.args[0]) == el:
+                ks = t.args[1].elts if isinstance(t.args[1], ast.Tuple) else [t.args[1]]
+                return kind in {dotted(x) for x in ks}
+            return None
+        fb = ast.FunctionDef(name="_tracked", args=ast.arguments(posonlyargs=[], args=[], kwonlyargs=[], kw_defaults=[], defaults=[]), body=lp.body, decorator_list=[])
+        results = set()
+        detail = ""
+        for pth in PathEval(fb, bool_decider(atom), loop_mode="once").run():
+            if pth.kind == "raise":
+                if pth.exc != "AssertionError":
+                    results.add(("raise", pth.exc))
+                continue
+            adv = Rat(0)
+            read_off = None
+            env = dict(shape_aliases(fn))
+            bad = None
+            for evn in pth.trace:
+                if isinstance(evn, ast.Assign) and isinstance(evn.targets[0], ast.Name) and evn.targets[0].id != cursor:
+                    try:
+                        env[evn.targets[0].id] = _ShapeEval(env).ev(evn.value)
+                    except AnalysisError:
+                        pass
+                if isinstance(evn, ast.Expr) and isinstance(evn.value, ast.Call) and call_name(evn.value) == "append" and dotted(evn.value.func.value) == out:
+                    a = evn.value.args[0]
+                    if isinstance(a, ast.Subscript) and dotted(a.value) == temp and isinstance(a.slice, ast.Name) and a.slice.id == cursor:
+                        read_off = adv
+                    else:
+                        bad = "appended value `%s` is not read at the cursor" % src(a)
+                if isinstance(evn, ast.AugAssign) and isinstance(evn.target, ast.Name) and evn.target.id == cursor:
+                    if not isinstance(evn.op, ast.Add):
+                        bad = "cursor updated with %s" % type(evn.op).__name__
+                    else:
+                        try:
+                            adv = adv + _ShapeEval(env).ev(evn.value)
+                        except AnalysisError as e:
+                            bad = str(e)
+            results.add(("ok", str(adv), str(read_off)) if bad is None else ("bad", bad))
+            if bad:
+                detail = bad
+        want = {("ok", str(want_adv), str(Rat(0)))}
+        ok = results == want
         ctx.ob("R-SLOTS", "CvxpyWrapper._recover_dual_values::advance for %s" % kind, ok,
-               "reads the multiplier at the cursor, then advances by %s = number of solver constraints emitted" % adv if ok else
-               "reads at cursor+%s and advances by %s; the sender emits %s solver constraints with the multiplier of interest first%s"
-               % (read_off, adv, want_adv, (" (" + why + ")") if why else ""), loc(fn, body[0]))
-        ctx.sample({"rule": "R-SLOTS", "kind": kind, "emitted": str(want_adv), "advance": str(adv), "read offset": str(read_off)})
+               "reads the multiplier at the cursor, then advances by %s = number of solver constraints emitted" % want_adv if ok else
+               "for a tracked %s the recovery does %s; the sender emits %s solver constraints with the multiplier of interest first%s"
+               % (kind, sorted(results), want_adv, (" (" + detail + ")") if detail else ""), loc(fn, lp))
+        ctx.sample({"rule": "R-SLOTS", "kind": kind, "emitted": str(want_adv), "recovery": [list(r) for r in results]})
 
 
 def _count_local_list(fn, name, ev):
@@ -463,7 +515,7 @@ def r_sense(ctx):
                 left = c.left
                 if isinstance(left, ast.Name):
                     left = origin(p.trace, left.id)
-                good = isinstance(c.ops[0], want) and is_const(c.comparators[0], 0) and isinstance(left, ast.Call) and call_name(left) == "_expression_to_solver" \
+                good = isinstance(c.ops[0], want) and is_const(c.comparators[0], 0) and isinstance(left, ast.Call) and call_name(left) == TRANSLATE \
                     and left.args and dotted(left.args[0]) == cons + ".expression"
                 if not good:
                     # also accept  0 >= translation  /  0 == translation
@@ -471,7 +523,7 @@ def r_sense(ctx):
                     if isinstance(l2, ast.Name):
                         l2 = origin(p.trace, l2.id)
                     flipped = {ast.LtE: ast.GtE, ast.Eq: ast.Eq}[want]
-                    good = isinstance(c.ops[0], flipped) and is_const(r2, 0) and isinstance(l2, ast.Call) and call_name(l2) == "_expression_to_solver" \
+                    good = isinstance(c.ops[0], flipped) and is_const(r2, 0) and isinstance(l2, ast.Call) and call_name(l2) == TRANSLATE \
                         and l2.args and dotted(l2.args[0]) == cons + ".expression"
                 if not good:
                     ok, what = False, "becomes `%s`" % src(c)
@@ -543,9 +595,9 @@ def _sparse_unpack(fn):
 
 
 def r_expr_to_solver(ctx, be):
-    fn = be.methods.get("_expression_to_solver")
+    fn = be.methods.get(TRANSLATE)
     if fn is None:
-        raise AnalysisError("CvxpyWrapper._expression_to_solver missing")
+        raise AnalysisError("CvxpyWrapper: method translating an expression for the solver not found")
     ctx.unit(qualname(fn))
     un = None
     for s in flow.stmts_of(fn, ast.Assign):
@@ -563,7 +615,7 @@ def r_expr_to_solver(ctx, be):
         kinds = sorted(_term_kind(t, un) for t in terms)
         ok = kinds == ["F", "G", "const"]
         msg = "affine form = constant + F . Fweights + <G, Gweights>" if ok else "affine form has terms %s (expected constant, F-term, G-term, each added once)" % kinds
-    ctx.ob("R-SENSE", "CvxpyWrapper._expression_to_solver::affine form", ok, msg, loc(fn, fn))
+    ctx.ob("R-SENSE", "CvxpyWrapper.<translate expression>::affine form", ok, msg, loc(fn, fn))
 
 
 def _sum_terms(e):
@@ -1029,11 +1081,29 @@ def r_lmienc(ctx):
     """cvxpy: M symmetric of the LMI's shape, M >> 0, M[i,j] == translation(entry (i,j)) for all i, j.
     MOSEK: one equality row per entry coupling the Gram part with -1 (diagonal) / -1/2 (off-diagonal) of the matrix variable."""
     repo = ctx.repo
+    resolve_names(repo)
     be = _be(repo, "cvxpy")
     fn = be.methods["send_lmi_constraint_to_solver"]
     psd = params_of(fn)[-1]
+    sh = {}
+    for s0 in flow.stmts_of(fn, ast.Assign):
+        t0, v0 = s0.targets[0], s0.value
+        if isinstance(t0, ast.Tuple) and len(t0.elts) == 2 and dotted(v0) == psd + ".shape" and all(isinstance(e, ast.Name) for e in t0.elts):
+            sh[t0.elts[0].id] = "%s.shape[0]" % psd
+            sh[t0.elts[1].id] = "%s.shape[1]" % psd
+        if isinstance(t0, ast.Name) and src(v0).replace(" ", "") in ("%s.shape[0]" % psd, "%s.shape[1]" % psd):
+            sh[t0.id] = src(v0).replace(" ", "")
+
+    def shape_text(e):
+        """source text with locals bound to the LMI's shape replaced by psd.shape[k]"""
+        n2 = clone(e)
+        for x in ast.walk(n2):
+            if isinstance(x, ast.Name) and x.id in sh:
+                x.id = sh[x.id]
+        return src(n2).replace(" ", "")
     var = [s for s in flow.stmts_of(fn, ast.Assign) if isinstance(s.value, ast.Call) and call_name(s.value) == "Variable"]
-    okv = len(var) == 1 and dotted(var[0].value.args[0]) == psd + ".shape" and any(k.arg == "symmetric" and is_const(k.value, True) for k in var[0].value.keywords)
+    okv = len(var) == 1 and var[0].value.args and shape_text(var[0].value.args[0]) in (psd + ".shape", "(%s.shape[0],%s.shape[1])" % (psd, psd)) \
+        and any(k.arg == "symmetric" and is_const(k.value, True) for k in var[0].value.keywords)
     ctx.ob("R-LMIENC", "CvxpyWrapper.send_lmi_constraint_to_solver::matrix variable", okv,
            "a symmetric variable of the LMI's shape" if okv else "the auxiliary matrix variable is not symmetric of shape %s.shape" % psd, loc(fn, fn))
     eqs = [n for n in ast.walk(fn) if isinstance(n, ast.Compare) and isinstance(n.ops[0], ast.Eq) and isinstance(n.left, ast.Subscript)]
@@ -1044,7 +1114,7 @@ def r_lmienc(ctx):
         idx = [src(x) for x in e.left.slice.elts] if isinstance(e.left.slice, ast.Tuple) else []
         r = e.comparators[0]
         ridx = []
-        if isinstance(r, ast.Call) and call_name(r) == "_expression_to_solver" and isinstance(r.args[0], ast.Subscript) and dotted(r.args[0].value) == psd \
+        if isinstance(r, ast.Call) and call_name(r) == TRANSLATE and isinstance(r.args[0], ast.Subscript) and dotted(r.args[0].value) == psd \
                 and isinstance(r.args[0].slice, ast.Tuple):
             ridx = [src(x) for x in r.args[0].slice.elts]
         loops = []       # (iterable, target name)
@@ -1059,7 +1129,7 @@ def r_lmienc(ctx):
             if isinstance(par, ast.For) and any(x is cur for x in par.body):
                 loops.append((par.iter, par.target.id if isinstance(par.target, ast.Name) else None))
             cur = par
-        ranges = sorted(src(it) for it, _ in loops)
+        ranges = sorted(shape_text(it) for it, _ in loops)
         oke = dotted(e.left.value) == m and idx == ridx and len(idx) == 2 and idx[0] != idx[1] \
             and ranges == sorted(["range(%s.shape[0])" % psd, "range(%s.shape[1])" % psd]) \
             and {t for _, t in loops} == set(idx) and not filtered \
@@ -1074,11 +1144,9 @@ def r_lmienc(ctx):
     mats = [n for n in ast.walk(fn) if isinstance(n, ast.Call) and call_name(n) == "appendsparsesymmat" and len(n.args) == 4 and isinstance(n.args[3], ast.List)]
     okm = False
     msg = "coupling matrix not found"
-    if len(mats) == 1:
-        c = mats[0]
-        rows, cols, val = src(c.args[1]), src(c.args[2]), c.args[3].elts[0]
+    if 1 <= len(mats) <= 2:
         try:
-            # the two entry indices are the variables of the two enclosing loops
+            c = mats[0]
             ij = []
             cur = common.stmt_of(c)
             while True:
@@ -1091,13 +1159,27 @@ def r_lmienc(ctx):
             if len(ij) != 2:
                 raise AnalysisError("the coupling matrix is not built inside two entry loops")
             i_, j_ = ij
-            diag = _fold(val, True, (i_, j_))
-            off = _fold(val, False, (i_, j_))
-            rr, cc = rows.replace(" ", ""), cols.replace(" ", "")
-            okm = diag == -1 and off == Fraction(-1, 2) and rr in ("[max(%s,%s)]" % (i_, j_), "[max(%s,%s)]" % (j_, i_)) \
-                and cc in ("[min(%s,%s)]" % (i_, j_), "[min(%s,%s)]" % (j_, i_))
+            got = {}
+            for diag in (True, False):
+                chosen = []
+                for cm in mats:
+                    reach = True
+                    for t, br, _if in flow.conditions_guarding(common.stmt_of(cm)):
+                        v = _fold(t, diag, (i_, j_))
+                        if bool(v) != br:
+                            reach = False
+                    if reach:
+                        chosen.append(cm)
+                if len(chosen) != 1:
+                    raise AnalysisError("%d coupling matrices are built for %s entries" % (len(chosen), "diagonal" if diag else "off-diagonal"))
+                cm = chosen[0]
+                rr, cc = src(cm.args[1]).replace(" ", ""), src(cm.args[2]).replace(" ", "")
+                pos_ok = rr in ("[max(%s,%s)]" % (i_, j_), "[max(%s,%s)]" % (j_, i_)) and cc in ("[min(%s,%s)]" % (i_, j_), "[min(%s,%s)]" % (j_, i_))
+                got[diag] = (_fold(cm.args[3].elts[0], diag, (i_, j_)), pos_ok, rr, cc)
+            okm = got[True][0] == -1 and got[False][0] == Fraction(-1, 2) and got[True][1] and got[False][1]
             msg = "entry (i, j) is coupled with -1 on the diagonal and -1/2 off the diagonal at (max, min)" if okm else \
-                "coupling coefficient is %s on the diagonal and %s off the diagonal at (%s, %s); a lower-triangular symmetric entry counts twice, so -1 / -1/2 at (max, min) is required" % (diag, off, rows, cols)
+                "coupling coefficient is %s on the diagonal and %s off the diagonal at (%s, %s); a lower-triangular symmetric entry counts twice, so -1 / -1/2 at (max, min) is required" % (
+                    got[True][0], got[False][0], got[False][2], got[False][3])
         except AnalysisError as e:
             msg = str(e)
     ctx.ob("R-LMIENC", "MosekWrapper.send_lmi_constraint_to_solver::coupling coefficient", okm, msg, loc(fn, fn))
